@@ -466,7 +466,11 @@ func Version.String
 func Version.MarshalControl
   ensures result0 == render(version) && result1 == nil
 
-property C03: lemma lastidx_is, lemma lastidx_none, lemma val_cat, lemma idx_least, lemma rt_body, lemma idx_is, lemma idx_none, lemma rt_epoch, lemma rt_noepoch, lemma rt_version, lemma val_prefix, lemma alldig_prefix, lemma wf_chars, parseInto, Parse, (*Version).UnmarshalControl, Version.StringWithoutEpoch, Version.String, Version.MarshalControl
+// the text form used by encoding/json and friends is the same rendering, epoch included
+func Version.MarshalText
+  ensures str(result0) == render(version) && result1 == nil
+
+property C03: lemma lastidx_is, lemma lastidx_none, lemma val_cat, lemma idx_least, lemma rt_body, lemma idx_is, lemma idx_none, lemma rt_epoch, lemma rt_noepoch, lemma rt_version, lemma val_prefix, lemma alldig_prefix, lemma wf_chars, parseInto, Parse, (*Version).UnmarshalControl, Version.StringWithoutEpoch, Version.String, Version.MarshalControl, Version.MarshalText
 
 // the version parser as part of C18: total (no panic: every BOUNDS/NIL/OVERFLOW obligation), a value xor an error,
 // and no write outside the result (frames)
